@@ -30,7 +30,9 @@ RULE = (
     "handle, differencing chains with parents in sibling directories, multi-extent descriptors incl. FLAT/VMFS extents, hostile "
     "and mutated inputs, the envelope CLI) and from a scenario generator that builds an evidence directory (VMDK descriptor + "
     "extents + parent, differencing VHDX + parent, Parallels .hdd, envelope + keystore, vmtar) and runs a random sequence of "
-    "open / read / list / decrypt operations over it. Monitors: (1) audit events raised while a dissect.hypervisor frame is on "
+    "open / read / list / decrypt operations over it (incl. payloads larger than one 4 MiB decrypt chunk, the CLI with -o naming a "
+    "file, an existing file, a separate directory or the evidence directory, envelopes whose names do not end in '.ve'). Every "
+    "workload runs in two process variants: default environment and DISSECT_LOG_VMDK/VHDX=DEBUG. Monitors: (1) audit events raised while a dissect.hypervisor frame is on "
     "the stack — open with a write-capable mode or flag, writable mmap, remove/rename/truncate/mkdir/rmdir/chmod/utime/link/"
     "symlink, shutil.*, tempfile.* — are violations, except the path given to the CLI as --output; (2) any write/writelines/"
     "truncate call on a supplied SparseFile, and any content change of a supplied BytesIO; (3) manifest (names, sizes, "
@@ -46,8 +48,14 @@ ASSUMPTIONS = [
 WORKLOADS = ["C06", "C07", "C07", "C10", "C10", "C11", "C12", "C13", "C14", "C16", "C19", "C20", "scenario", "scenario"]
 
 
-def budget(tier):
-    return 1000 if tier == "quick" else 40000
+def budget(tier):  # per variant
+    return 600 if tier == "quick" else 25000
+
+
+def variants(tier):
+    # the library's logging switches are read at import time
+    return [{"name": "default", "env": {}},
+            {"name": "debug-logging", "env": {"DISSECT_LOG_VMDK": "DEBUG", "DISSECT_LOG_VHDX": "DEBUG"}}]
 
 
 @st.composite
@@ -56,7 +64,8 @@ def strategy_(draw, tier):
     if w == "scenario":
         ops = draw(st.lists(st.sampled_from(["vmdk-open", "vmdk-read", "vmdk-flat-big", "vhdx-open", "vhdx-read", "hdd-open", "hdd-read", "hdd-guid",
                                              "envelope-decrypt", "cli", "cli-existing-output", "cli-wrong-key", "vmtar-list", "vmtar-extract", "keystore",
-                                             "vmtar-modes", "vhdx-abs-parent", "hyperv-dirty", "rw-handles"]),
+                                             "vmtar-modes", "vhdx-abs-parent", "hyperv-dirty", "rw-handles", "envelope-decrypt-big", "cli-big",
+                                             "cli-output-dir", "cli-output-evidence-dir"]),
                             min_size=2, max_size=10))
         return {"workload": w, "ops": ops, "n": draw(st.integers(0, 1 << 20))}
     mod = importlib.import_module(f"hv.props.{w.lower()}")
@@ -154,6 +163,16 @@ def build_evidence(d, n):
         f.write(text)
     with open(os.path.join(d, "esx", "wrong.info"), "w") as f:
         f.write(benv.keystore_text(dict(ks, data1="ff"))[0])
+    # the same envelope under names that do not end in a lower-case ".ve", and one larger than a decrypt chunk (4 MiB)
+    for nm in ("STATE.TGZ.VE", "state"):
+        with open(os.path.join(d, "esx", nm), "wb") as f:
+            f.write(data)
+    bigspec = dict(c12.ENV_SPEC, key=key.hex(), payload_len=(4 << 20) + 1 + n % 70000 if n % 3 else (8 << 20) + n % 4096)
+    bigdata, bigpayload, _a, _r = benv.build(bigspec)
+    with open(os.path.join(d, "esx", "big.tgz.ve"), "wb") as f:
+        f.write(bigdata)
+    info.update(envelope_big=os.path.join(d, "esx", "big.tgz.ve"), payload_big=bigpayload, envelope_big_bytes=bigdata,
+                envelope_odd=[os.path.join(d, "esx", nm) for nm in ("STATE.TGZ.VE", "state")])
     info.update(envelope=os.path.join(d, "esx", "local.tgz.ve"), keystore=os.path.join(d, "esx", "encryption.info"),
                 wrong_keystore=os.path.join(d, "esx", "wrong.info"), key=key, payload=payload, envelope_bytes=data)
     # vmtar
@@ -217,6 +236,8 @@ def run_scenario(spec, out):
         info = build_evidence(d, spec["n"])
         before = manifest(d)
         allowed = os.path.join(outdir, "out.bin")
+        outsub = os.path.join(outdir, "sub")
+        os.mkdir(outsub)
         opened = []
         with audit.recording(allow={allowed}) as state:
             for op in spec["ops"]:
@@ -248,6 +269,32 @@ def run_scenario(spec, out):
                             Envelope(fh).decrypt(info["key"])
                         bio = core.track(info["envelope_bytes"])
                         Envelope(bio).decrypt(info["key"])
+                    elif op == "envelope-decrypt-big":
+                        with open(info["envelope_big"], "rb") as fh:
+                            if Envelope(fh).decrypt(info["key"]) != info["payload_big"]:
+                                raise AssertionError("decrypt() of a payload > 4 MiB differs from the payload")
+                        Envelope(core.track(info["envelope_big_bytes"])).decrypt(info["key"])
+                    elif op == "cli-big":
+                        sys.argv = ["envelope-decrypt", info["envelope_big"], "-ks", info["keystore"], "-o", allowed]
+                        try:
+                            tool.main()
+                        finally:
+                            sys.argv = old_argv
+                        with open(allowed, "rb") as f:
+                            if f.read() != info["payload_big"]:
+                                raise AssertionError("CLI output differs from the payload (> 4 MiB)")
+                    elif op in ("cli-output-dir", "cli-output-evidence-dir"):
+                        # -o names a directory: an error today; whatever a tool does with it, it must stay inside that directory
+                        # and must not touch the evidence (here the envelope lives in the directory named, or elsewhere)
+                        target = os.path.dirname(info["envelope"]) if op == "cli-output-evidence-dir" else outsub
+                        for env_path in [info["envelope"], *info["envelope_odd"]]:
+                            sys.argv = ["envelope-decrypt", env_path, "-ks", info["keystore"], "-o", target]
+                            try:
+                                tool.main()
+                            except (OSError, SystemExit):
+                                pass
+                            finally:
+                                sys.argv = old_argv
                     elif op in ("cli", "cli-existing-output", "cli-wrong-key"):
                         if op == "cli-existing-output":
                             with open(allowed, "wb") as f:
@@ -320,7 +367,7 @@ def run_scenario(spec, out):
         if after != before:
             changed = sorted(set(k for k in set(before) | set(after) if before.get(k) != after.get(k)))
             out.fail("mutated|evidence-dir", f"evidence directory changed: {changed[:4]}")
-        extra = sorted(set(os.listdir(outdir)) - {"out.bin"})
+        extra = sorted(set(os.listdir(outdir)) - {"out.bin", "sub"})
         if "cli-existing-output" in spec["ops"]:
             tmp = allowed + ".tmp"
             if not os.path.exists(tmp) or open(tmp, "rb").read() != b"precious":
